@@ -80,6 +80,8 @@ RelBase(Q, clause, op, names, kinds) ==
                     \/ clause = "view" /\ names \cap {"boardcount", "boards"} # {}
                     \/ clause \in {"probe", "verifier", "outcome", "refused-but-changed"} /\ op = "select_runout_count"
                     \/ clause \in StateClauses /\ names \cap (RunF \cup {"board", "boardPend"}) # {}
+                    \/ clause \in StateClauses /\ "PUSH" \in kinds /\ names \cap (PotF \cup ChipF \cup {"log"}) # {}
+                    \/ clause = "outcome-other" /\ op \in {"push_chips", "show_or_muck_hole_cards", "kill_hand", "deal_board", "select_runout_count"}
     [] Q \in {"C09", "C15", "C16", "C17", "C20"} -> clause \in TwinClauses
     [] OTHER -> TRUE
 RelevantFor(Q, clause, op, names, kinds) ==
